@@ -106,7 +106,11 @@ Definition scan_query (r : router) (nolimit : bool) (opi : N) (inp : list prog) 
   let active := q_value (fun e => match e with EQActive n => Some n | _ => None end) evs in
   let cap := q_value (fun e => match e with EQCap n => Some n | _ => None end) evs in
   (match depth, cap with
-   | Some d, Some c => if factory_queueing_r r && nolimit && (0 <? d) && (0 <? c) then [AIdleBacklog opi] else []
+   | Some d, Some c =>
+       (* plain queuer only: with sticky routing a queued job whose key is being processed must wait for
+          that worker, whoever else is idle *)
+       if (match r with RQueuer => true | _ => false end) && nolimit && (0 <? d) && (0 <? c)
+       then [AIdleBacklog opi] else []
    | _, _ => [] end)
   ++ (match active with
       | Some a => let n := N.of_nat (length (dedup (map p_w inp))) in
